@@ -91,6 +91,36 @@ PROPS = {
         ],
         "assumptions": ["the layout characterisation is evaluated per input on the implementation, not yet proved for the model for all inputs"],
     },
+    "C07": {
+        "level": "proof",
+        "streams": ["C07"],
+        "generated_obligations": 2,
+        "rule": "all token sequences of length <= 3 (quick; <= 4 thorough) over the 28 token kinds (identifiers x, y, _; one literal; both "
+                "terminator kinds), 150k (1.5M) sampled sequences of the next three lengths, 20k (100k) random derivations of grammar.y of "
+                "3-300 tokens each with one single-token deletion/substitution/insertion, and 4k (40k) generated programs. Each case: parse() "
+                "of the implementation vs the extracted parser model (verdict, tree incl. association and de Bruijn indices, names, error "
+                "count, memo misses, scan steps), and syntactic acceptance vs an Earley recogniser of the grammar regenerated from grammar.y. "
+                "Non-trivial: every case; distinct by token list.",
+        "trusted_base": TB_COMMON + [
+            "translator tools/extract_tables.py: skeleton of the 36 parse_* functions (alternatives, consumed tokens, try/commit sub-parses, memo flags, order of the re-association passes) regenerated from parser.rs; productions regenerated from grammar.y",
+            "modelled, not verified: parse_let/parse_if/parse_group, the tree builders, the three re-association passes, resolve_variables and check_definitions are hand-written mirrors (coq/Model/Parser.v, ParserPost.v) tied to the code by the correspondence stream; ocaml/earley.ml is a plain OCaml recogniser used as completeness oracle only",
+        ],
+        "assumptions": ["soundness/completeness of the parser model w.r.t. a derivation relation is not yet a Coq theorem; it is decided on the explored inputs against the chart recogniser"],
+    },
+    "C08": {
+        "level": "proof",
+        "streams": ["C08"],
+        "rule": "generated programs whose binders are renamed from a 12-name pool so that sibling scopes re-use names (names that are keyword "
+                "prefixes or non-ASCII included), nested groups in definitions/annotations/bodies, plus one or two single-point perturbations "
+                "per program that replace a variable or a binder by another name (unbinding or shadowing), plus 24 hand-written scope "
+                "configurations. Each case: the implementation's parse() vs the stack-of-names specification scope_spec run on the model's "
+                "syntax tree: same verdict (scoping error iff the specification fails) and same de Bruijn term. Non-trivial: syntactically "
+                "accepted; distinct by source text.",
+        "trusted_base": TB_COMMON + [
+            "modelled, not verified: the syntax tree fed to the specification is produced by the parser model (tied to the code by C07's stream)",
+        ],
+        "assumptions": ["the theorem `mirror of resolve_variables = scope_spec` is stated (C08_resolve_statement) but not proved; the property is decided per generated instance"],
+    },
 }
 
 NOT_APPLICABLE = {}
@@ -145,5 +175,25 @@ MANIFEST_TEXT = {
         "design_ref": "DESIGN.md section 4, C10",
         "note": "Trusted: as C09.",
         "technique": "generated-table obligation (vm_compute) + executable Coq layout oracle + metamorphic re-layout testing of the implementation",
+    },
+    "C07": {
+        "text": "Kernel-checked on every run for all inputs: the parser skeleton regenerated from parser.rs (36 functions: ordered "
+                "alternatives, consumed tokens, sub-parses) implements exactly the productions regenerated from grammar.y; committed "
+                "sub-parses are ordered choices; every function is memoised. Acceptance iff sentence, the tree with left-associated chains "
+                "and honoured parentheses, full consumption and names are decided by running the extracted executable parser model and an "
+                "Earley recogniser of grammar.y against the implementation on all short token sequences, grammar derivations and their "
+                "single-token edits. Partial proof: soundness/completeness of the model against a derivation relation is not yet a theorem.",
+        "design_ref": "DESIGN.md section 4, C07",
+        "note": "Trusted: Coq kernel, the skeleton/grammar translator, extraction, OCaml driver + Earley oracle, harness.",
+        "technique": "generated skeleton-vs-grammar obligations (vm_compute) + extracted packrat model differential testing + Earley completeness oracle",
+    },
+    "C08": {
+        "text": "The scoping rules are a short stack-of-names function in Coq (scope_spec) whose behaviour on the characteristic cases "
+                "(sibling re-use, shadowing, unbound names, `_`, group scope over annotations) is pinned by kernel-checked computations; the "
+                "implementation's resolution is compared with the extracted specification on generated programs with re-used names and on "
+                "unbinding/shadowing perturbations. Partial proof: equality of the resolver mirror and the specification is stated, not proved.",
+        "design_ref": "DESIGN.md section 4, C08",
+        "note": "Trusted: Coq kernel, extraction, OCaml driver, harness; the syntax tree comes from the parser model (C07).",
+        "technique": "executable Coq scoping specification (stack of names) + differential testing with renaming and perturbation",
     },
 }
